@@ -1,7 +1,7 @@
 #!/bin/sh
 # Re-runs every seeded change under /verif/seeded against its property's quick check
 # (scratch copy of /repo/src; /repo itself is never touched). One line per change.
-cd /verif
+cd "$(dirname "$0")/.."
 for d in seeded/S*/; do
   id=$(basename "$d"); prop=$(/venv/bin/python -c "import json;print(json.load(open('$d/meta.json'))['breaks_property'])")
   n=$(tools/try_patch.sh "$d/patch.diff" "$prop" "$@" 2>/dev/null | grep -c "VIOLATION")
